@@ -56,7 +56,7 @@ from pathlib import Path
 
 VERIF = Path(__file__).resolve().parent.parent
 REPO = Path(os.environ.get("VERIF_REPO", "/repo"))
-OUT = VERIF / "lean/UvModel/Generated/Kernels.lean"
+OUT = Path(os.environ.get("VERIF_LEAN", str(VERIF / "lean"))) / "UvModel/Generated/Kernels.lean"
 CPP = ["-D_GNU_SOURCE", "-D_FILE_OFFSET_BITS=64", "-D_LARGEFILE_SOURCE",
        f"-I{REPO}/include", f"-I{REPO}/src", f"-I{REPO}/src/unix"]
 
